@@ -30,6 +30,18 @@ ASSUMPTIONS = [
 ]
 
 
+def raised_within(cause, source):
+    """Did `cause` propagate out of the evaluation of `source`? Its traceback then holds a frame that refers to it
+    (the request handler's `request.evaluatable`, or `self` of one of the object's own methods)."""
+    tb = cause.__traceback__
+    while tb is not None:
+        for v in tb.tb_frame.f_locals.values():
+            if v is source or getattr(v, "evaluatable", None) is source:
+                return True
+        tb = tb.tb_next
+    return False
+
+
 def chain_ok(e, root):
     """Walk __cause__: generic EvaluationError wrappers, then the original."""
     if not isinstance(e, EvaluationError):
@@ -43,6 +55,9 @@ def chain_ok(e, root):
             return "an EvaluationError wrapper without a cause"
         if not hasattr(cur, "source"):
             return "wrapper without source"
+        if isinstance(cur.__cause__, EvaluationError) and not raised_within(cur.__cause__, cur.source):
+            return (f"the cause {cur.__cause__!r} of the error for {cur.source!r} was not raised while that object was being evaluated "
+                    f"(the chain does not lead through the nested objects)")
         cur = cur.__cause__
         hops += 1
         if hops > 500:
